@@ -1,6 +1,7 @@
 package main
 
 import (
+	"strconv"
 	"regexp"
 	"encoding/json"
 	"fmt"
@@ -141,6 +142,35 @@ func c17Extreme(r *rand.Rand, q string) string {
 	return q
 }
 
+var c17Funcs = []string{"ToLower", "ToUpper", "Replace", "Trim", "TrimLeft", "TrimRight", "TrimPrefix", "TrimSuffix", "TrimSpace", "regexReplaceAll",
+	"regexReplaceAllLiteral", "count", "urldecode", "urlencode", "bytes", "duration", "duration_seconds", "unixEpochMillis", "unixEpochNanos", "toDateInZone",
+	"unixToTime", "alignLeft", "alignRight", "b64enc", "b64dec", "lower", "upper", "title", "trunc", "substr", "contains", "hasPrefix", "hasSuffix", "indent", "nindent",
+	"replace", "repeat", "trim", "trimAll", "trimSuffix", "trimPrefix", "int", "float64", "add", "sub", "mul", "div", "mod", "addf", "subf", "mulf", "divf", "max", "min",
+	"maxf", "minf", "ceil", "floor", "round", "fromJson", "date", "toDate", "now", "unixEpoch", "default", "__timestamp__", "__line__", "printf", "index", "len", "slice", "html", "js", "call"}
+
+var c17Args = []string{`.a`, `.missing`, `__line__`, `__timestamp__`, `""`, `"x"`, `"("`, `"[a-"`, `"%zz"`, `"2006-01-02"`, `"abc"`, `"1700000000"`, `"17000000001700000000"`, `"99999"`, `"Nowhere/Zone"`,
+	`0`, `1`, `-1`, `3`, `65`, `-9223372036854775808`, `9223372036854775807`, `1e300`, `0.0`, `2.5`, `true`, `nil`, `(now)`, `(div 1 0)`, `(int "x")`, `(fromJson "{")`, `(unixToTime "1700000000")`}
+
+// c17Template: 1-3 actions, each a call of a template function with 0-4 arguments drawn without regard to the
+// function's signature (small repeat/pad counts only: a huge count is a legitimate request for a huge string)
+func c17Template(r *rand.Rand) string {
+	var sb strings.Builder
+	for i, n := 0, 1+r.Intn(3); i < n; i++ {
+		sb.WriteString(pick(r, []string{"", "x ", "%"}))
+		sb.WriteString("{{ ")
+		sb.WriteString(pick(r, c17Funcs))
+		for j, m := 0, r.Intn(5); j < m; j++ {
+			sb.WriteString(" ")
+			sb.WriteString(pick(r, c17Args))
+		}
+		if r.Intn(4) == 0 {
+			sb.WriteString(" | " + pick(r, c17Funcs))
+		}
+		sb.WriteString(" }}")
+	}
+	return sb.String()
+}
+
 func c17Gen(r *rand.Rand) c17Case {
 	t := c17Case{Recs: c17Recs(r)}
 	var q string
@@ -184,6 +214,42 @@ func c17Gen(r *rand.Rand) c17Case {
 	if r.Intn(4) == 0 {
 		q = c17Extreme(r, q)
 	}
+	if r.Intn(8) == 0 {
+		// templates over the whole function map of template.go (sprig included), with arguments of the wrong
+		// kind, sign or size: text/template turns a panicking function into an error; nothing may escape
+		q = "{} | " + pick(r, []string{"line_format", "label_format x="}) + " " + strconv.Quote(c17Template(r))
+		if r.Intn(3) == 0 {
+			q = "count_over_time(" + q + " [1m])"
+		}
+	}
+	if r.Intn(8) == 0 {
+		// the user mistakes the property names: bad regex, template, pattern, JSON path, each inside otherwise
+		// valid syntax (the string literal is well-formed, its content is not)
+		bad := func(xs []string) string { return strconv.Quote(pick(r, xs)) }
+		regexes := []string{"(", "[a-", "a{2,1}", "\\", "(?P<x>a)(?P<x>b)", "(?P<1>a)", "*", "a**", "(?i", "\\p{Nope}", "[[:nope:]]", "x{1001}", "(?P<a b>c)", strings.Repeat("(", 1200) + strings.Repeat(")", 1200)}
+		paths := []string{"", ".", "[", "[1", "a..b", "a[", "[\"x", "[\"a\\\"]", "[99999999999999999999]", "a.[0]", "[-1]", "a b", "\u00e9", "[\"\\u00e9\"]", "a[0][1].b.c", "[0", "a]", "[\"\\q\"]", "9a", "a.9"}
+		patterns := []string{"", "<", "<_", "<a><b>", "<a", "a>", "<>", "<a> <a>", "<_>", "<a b>", "<1>", "<a>x<b>x<c>", strings.Repeat("<a>", 300)}
+		templates := []string{"{{", "{{ .a", "{{ nofunc 1 }}", "{{ .a | }}", "{{ if }}", "{{ end }}", "{{ range .a }}", "{{ template \"x\" }}", "{{ define \"x\" }}{{ end }}", "{{ . }}", "{{ $x := 1 }}{{ $x }}", "{{ with .a }}{{ . }}{{ end }}", "{{ call .a }}", "{{ index .a 1 }}", "{{ printf \"%d\" .a }}"}
+		switch r.Intn(7) {
+		case 0:
+			q = "{a=~" + bad(regexes) + "}"
+		case 1:
+			q = "{} |~ " + bad(regexes)
+		case 2:
+			q = "{} | regexp " + bad(regexes)
+		case 3:
+			q = "{} | json x=" + bad(paths) + pick(r, []string{"", ", y=" + bad(paths)})
+		case 4:
+			q = "{} | pattern " + bad(patterns)
+		case 5:
+			q = "{} | " + pick(r, []string{"line_format ", "label_format x="}) + bad(templates)
+		default:
+			q = "{} | a =~ " + bad(regexes) + pick(r, []string{"", " | keep a=~" + bad(regexes), " | drop a=~" + bad(regexes)})
+		}
+		if r.Intn(3) == 0 {
+			q = pick(r, []string{"count_over_time(", "sum(rate("}) + q + " [1m])" + pick(r, []string{"", ")"})
+		}
+	}
 	t.Query = q
 	// documents of the kind the query's parser stage reads
 	if strings.Contains(q, "json") || strings.Contains(q, "unpack") {
@@ -208,7 +274,7 @@ func c17Gen(r *rand.Rand) c17Case {
 
 func init() {
 	props["C17"] = func(c *Ctx) {
-		c.Res.Rule = "exploration: query = grammar-derived log or metric query (all stage kinds, aggregations, binary operations), 0-2 token-level mutations (deletion, substitution, insertion, swap), or random bytes; logs = hostile contents (deep/truncated JSON, arbitrary JSON documents with every value kind at every position, extreme and malformed numbers, huge integers, lone surrogates, malformed logfmt, long SGR sequences, many-dotted and colon runs, invalid UTF-8, long lines) and label values; instant or positive-step parameters; every evaluation under recover() and a 10 s watchdog; a case counts as non-trivial when evaluation gets past parsing; nothing is compared with the model except that no panic and no timeout occurs"
+		c.Res.Rule = "exploration: query = grammar-derived log or metric query (all stage kinds, aggregations, binary operations), 0-2 token-level mutations (deletion, substitution, insertion, swap), or random bytes; logs = hostile contents (deep/truncated JSON, arbitrary JSON documents with every value kind at every position, extreme and malformed numbers, huge integers, lone surrogates, malformed logfmt, long SGR sequences, many-dotted and colon runs, invalid UTF-8, long lines) and label values; boundary values for aggregation parameters, literals, ranges and offsets; templates calling every function of the template function map (sprig included) with arguments of the wrong kind, sign or size; instant or positive-step parameters; every evaluation under recover() and a 10 s watchdog; a case counts as non-trivial when evaluation gets past parsing; nothing is compared with the model except that no panic and no timeout occurs"
 		spec := &Spec[c17Case]{
 			What: "Engine.Eval terminates without panic (recover + watchdog)",
 			Gen:  c17Gen,
